@@ -216,12 +216,16 @@ def source_cases(ctx, n_bool, n_int, n_defs, suite_stride=1):
             out.append((f"suite:{i}", "src", p["src"]))
     for i, s in enumerate(progs.STATEMENT_PROGRAMS):
         out.append((f"stmt:{i}", "src", s))
+    for i, s in enumerate(progs.COMPILER_SHAPE_PROGRAMS):
+        out.append((f"shape:{i}", "src", s))
     for k in range(n_bool):
         out.append((f"bool:{k}", "src", progs.gen_bool_program(rng, k)))
     for k in range(n_int):
         out.append((f"int:{k}", "src", progs.gen_int_program(rng, k)))
     for k in range(n_defs):
         out.append((f"defs:{k}", "defs", progs.gen_defs(rng, k)))
+    for k in range(n_defs // 2):  # drawn last: the streams above see the same random numbers as before
+        out.append((f"defsr:{k}", "defs", progs.gen_defs_rebind(rng, k)))
     return out
 
 
